@@ -6,6 +6,15 @@ use std::panic::{catch_unwind, AssertUnwindSafe};
 
 thread_local! {
     static LAST_PANIC: RefCell<Option<String>> = const { RefCell::new(None) };
+    /// set while the code under observation runs; panics elsewhere are harness bugs and are printed
+    pub static OBSERVING: std::cell::Cell<bool> = const { std::cell::Cell::new(false) };
+}
+
+pub fn observing<R>(f: impl FnOnce() -> R) -> R {
+    let prev = OBSERVING.with(|o| o.replace(true));
+    let r = f();
+    OBSERVING.with(|o| o.set(prev));
+    r
 }
 
 pub fn install_panic_hook() {
@@ -18,6 +27,9 @@ pub fn install_panic_hook() {
         } else {
             "<non-string panic>".into()
         };
+        if !OBSERVING.with(|o| o.get()) && !loc.contains("/repo/") {
+            eprintln!("HARNESS PANIC at {loc}: {msg}");
+        }
         LAST_PANIC.with(|p| *p.borrow_mut() = Some(format!("{loc}|{msg}")));
     }));
 }
@@ -149,20 +161,12 @@ pub fn panic_template(p: &str) -> String {
     let (loc, msg) = p.split_once('|').unwrap_or(("", p));
     let file = loc.rsplit_once(':').map(|x| x.0).unwrap_or(loc);
     let file = file.rsplit("/src/").next().unwrap_or(file);
+    // message template: text up to the first quoted fragment, digits abstracted
     let mut out = String::new();
-    let mut in_q = false;
     let mut last_hash = false;
-    for c in msg.chars().take(120) {
+    for c in msg.chars().take(90) {
         if c == '`' || c == '"' || c == '\'' {
-            in_q = !in_q;
-            if !in_q {
-                out.push_str("<q>");
-            }
-            last_hash = false;
-            continue;
-        }
-        if in_q {
-            continue;
+            break;
         }
         if c.is_ascii_digit() {
             if !last_hash {
